@@ -397,6 +397,7 @@ pub fn run(r: &mut Report, ctx: &Ctx) {
             );
         }
     }
+    crate::seq::section(r, ctx, "generate");
 }
 
 pub fn replay(case: &Value) -> Result<(), String> {
